@@ -523,6 +523,25 @@ func (ch c19) runConn(c *core.Ctx, env *hs.Env, cfg c19cfg, ending string, rng *
 				viol("context-not-cancelled", "per-command context not cancelled after its command ended", fmt.Sprintf("context %d still live %s", i, when))
 				return false
 			}
+			// cancelled is cancelled for everybody: a holder that waits on Done() - for the first time only now,
+			// or through a context it derives now - is released
+			select {
+			case <-st.ctxs[i].Done():
+			default:
+				viol("context-not-cancelled", "per-command context reports an error after its command ended, but its Done channel is not closed", fmt.Sprintf("context %d %s: Err() = %v", i, when, st.ctxs[i].Err()))
+				return false
+			}
+			if i%4 == 0 {
+				d, stop := context.WithCancel(st.ctxs[i])
+				select {
+				case <-d.Done():
+				default:
+					stop()
+					viol("context-not-cancelled", "a context derived from a per-command context after its command ended is not cancelled", fmt.Sprintf("context %d %s", i, when))
+					return false
+				}
+				stop()
+			}
 		}
 		return true
 	}
